@@ -125,6 +125,11 @@ def run(c, index, tier):
     seed = ch.subseed("w", "data")
     rs = numpy.random.RandomState(seed)
     X, kinds = _table(ch, rs, n, d)
+    int_table = ch.boolean("w", 0.15, "int-table")
+    if int_table:
+        # count data stored with an integer dtype
+        X = numpy.round(X * 4).astype(numpy.int64)
+        kinds = ["integer" if k not in ("constant",) else k for k in kinds]
     model_name = ch.choice("w", ["linreg", "tree", "dummy", "stateful-linreg"], "model")
     model = {"linreg": PLinReg, "tree": lambda: PTreeReg(max_depth=3, random_state=0), "dummy": PDummy, "stateful-linreg": StatefulLinReg}[model_name]()
     draws = ch.integer("w", 1, 4, "draws")
@@ -138,7 +143,7 @@ def run(c, index, tier):
     # copy differs from it by an ulp after scaling, which a tree model can
     # amplify through tie-breaking -- not this property's subject
     X = numpy.array(df.values, order="K", copy=True)
-    c.scenario = {"n": n, "d": d, "columns": kinds, "model": model_name, "draws": draws, "minmax": minmax, "split": mode, "fault": fault, "data_seed": seed}
+    c.scenario = {"n": n, "d": d, "int_dtype": int_table, "columns": kinds, "model": model_name, "draws": draws, "minmax": minmax, "split": mode, "fault": fault, "data_seed": seed}
     c.signature = [d, tuple(sorted(set(kinds))), model_name, draws, minmax, mode, fault, n // 6]
     c.entropy = E.Entropy("pinned")
     c.nontrivial = True
@@ -242,3 +247,16 @@ def run(c, index, tier):
             c.probe("model_failed_inside_call")
         if not numpy.array_equal(Xc, X):
             _viol(c, seen, "input-modified", ("array", "after-failure"), "the input array was modified by a call that failed")
+        if ok and c.fault_plan.fired:
+            # the call chose to go on after the model failed: what it returns
+            # is still bound by the statement
+            c.probe("call_returned_although_model_failed")
+            rmats = r if minmax else (r,)
+            for nm, m in zip(("mean", "min", "max"), rmats):
+                m = numpy.asarray(m)
+                if m.shape != (d, d) or numpy.any(numpy.isnan(m)) or numpy.any(m < -1e-12) or numpy.any(m > 1 + 1e-9):
+                    _viol(c, seen, "range", (nm, model_name, "after-model-failure"), "%s matrix returned by a call in which the model failed has a wrong shape, NaN or entries outside [0, 1]" % nm)
+            if minmax and len(rmats) == 3:
+                me, mi, ma = (numpy.asarray(x) for x in rmats)
+                if numpy.any(mi > me + 1e-12) or numpy.any(me > ma + 1e-12):
+                    _viol(c, seen, "min-mean-max", (model_name, "after-model-failure"), "min <= mean <= max does not hold for the result of a call in which the model failed on one pair")
